@@ -285,15 +285,28 @@ class HplContradiction(HplPredicate):
 
 def _get_reference_table(expr: HplExpression) -> Dict[str, List[HplExpression]]:
     ref_table = {}
-    for obj in expr.iterate():
+    binders = 0
+    # (node, {quantified variable: number of the quantifier that binds it})
+    stack = [(expr, {})]
+    while stack:
+        obj, scope = stack.pop()
         assert isinstance(obj, HplExpression)
         if obj.is_accessor or (obj.is_value and obj.is_variable):
             key = str(obj)
+            # the same name bound by two different quantifiers is not the same reference
+            bound = sorted(name for name in obj.external_references() if name in scope)
+            key += ''.join(f'#{name}:{scope[name]}' for name in bound)
             refs = ref_table.get(key)
             if refs is None:
                 refs = []
                 ref_table[key] = refs
             refs.append(obj)
+        if obj.is_quantifier:
+            binders += 1
+            stack.append((obj.condition, {**scope, obj.variable: binders}))
+            stack.append((obj.domain, scope))
+        else:
+            stack.extend((child, scope) for child in reversed(obj.children()))
     return ref_table
 
 
